@@ -13,9 +13,12 @@ import (
 // hex markers, underscore, the letters of Infinity/inf/NaN prefixes and a space.
 var alphabet16 = []string{"0", "1", "9", ".", "e", "E", "+", "-", "x", "X", "_", "I", "n", "f", "a", " "}
 
-var wsChars = []string{"", " ", "\t", "\n", "\v", "\f", "\r", "\u00a0", "\ufeff", "\u2028", "\u2029", "\u180e", "\u1680", "\u2000", "\u200a", "\u202f", "\u205f", "\u3000",
+// every ES5 WhiteSpace (7.2: TAB VT FF SP NBSP BOM + category Zs) and LineTerminator
+// (7.3: LF CR LS PS) code point, then near misses that must NOT be trimmed
+var wsChars = []string{"", " ", "\t", "\n", "\v", "\f", "\r", "\u00a0", "\ufeff", "\u2028", "\u2029", "\u180e", "\u1680",
+	"\u2000", "\u2001", "\u2002", "\u2003", "\u2004", "\u2005", "\u2006", "\u2007", "\u2008", "\u2009", "\u200a", "\u202f", "\u205f", "\u3000",
 	// not white space:
-	"a", "\u200b", "\u0085", "\u2060", "0"}
+	"a", "\u200b", "\u0085", "\u2060", "\u200c", "\u200d", "\u001c", "\u001f", "\u00ad", "\ufffe", "\u2800", "\u303f", "0"}
 
 var validLiterals = []string{"0", "1", "10", "1.5", "-1.5", "+1.5", ".5", "5.", "1e5", "1E5", "1e+5", "1e-5", "1.5e10", "-.5e-3", "0x1f", "0X1F", "0xff",
 	"Infinity", "-Infinity", "+Infinity", "  12  ", "123456789", "0.000001", "1e21", "1e-7", "9007199254740993", "0x10000000000000000", "00", "1.0e0", "-0", "+0", "0.0",
